@@ -179,10 +179,78 @@ func census(r *lib.Run) {
 	}
 	r.Case("reach", anchors, strings.Join(anchors, ","))
 	r.Stat("class.reach", 1)
+	// loggers: every package-level fastlog logger of the source (the log level is a mode the cases rotate)
+	lt := logCensus(r)
+	r.Case("logs", lt, strings.Join(lt, ","))
+	r.Stat("class.logs", 1)
 	// buffer pool discipline: every function that takes a buffer from the shared pool, with its Get / deferred Put / other Put counts
 	pt := poolCensus(r)
 	r.Case("pool", pt, strings.Join(pt, ","))
 	r.Stat("class.pool", 1)
+}
+
+// logCensus: every call of fastlog.New in the library (every package): "dir:Name" when it initialises a
+// package-level variable Name, "dir:?<function>" when it is anywhere else (a logger the harness cannot name).
+func logCensus(r *lib.Run) []string {
+	root := os.Getenv("VERIF_REPO")
+	if root == "" {
+		root = "/repo"
+	}
+	toks := []string{}
+	fset := token.NewFileSet()
+	filepath.Walk(root, func(path string, info os.FileInfo, err error) error {
+		if err != nil {
+			return nil
+		}
+		if info.IsDir() {
+			if n := info.Name(); n == "examples" || n == ".git" || n == "vendor" || n == "fastlog" {
+				return filepath.SkipDir
+			}
+			return nil
+		}
+		if !strings.HasSuffix(path, ".go") || strings.HasSuffix(path, "_test.go") {
+			return nil
+		}
+		f, err := parser.ParseFile(fset, path, nil, 0)
+		if err != nil {
+			return nil
+		}
+		dir, _ := filepath.Rel(root, filepath.Dir(path))
+		isNew := func(x ast.Expr) bool {
+			c, ok := x.(*ast.CallExpr)
+			if !ok {
+				return false
+			}
+			sel, ok := c.Fun.(*ast.SelectorExpr)
+			return ok && sel.Sel.Name == "New" && exprString(sel.X) == "fastlog"
+		}
+		for _, d := range f.Decls {
+			switch d := d.(type) {
+			case *ast.GenDecl:
+				for _, sp := range d.Specs {
+					if vs, ok := sp.(*ast.ValueSpec); ok {
+						for i, v := range vs.Values {
+							if isNew(v) && i < len(vs.Names) {
+								toks = append(toks, filepath.ToSlash(dir)+":"+vs.Names[i].Name)
+							}
+						}
+					}
+				}
+			case *ast.FuncDecl:
+				if d.Body != nil {
+					ast.Inspect(d.Body, func(x ast.Node) bool {
+						if e, ok := x.(ast.Expr); ok && isNew(e) {
+							toks = append(toks, filepath.ToSlash(dir)+":?"+d.Name.Name)
+						}
+						return true
+					})
+				}
+			}
+		}
+		return nil
+	})
+	sort.Strings(toks)
+	return toks
 }
 
 // poolCensus reads the pool discipline off the source (every package): for every function declaration that
